@@ -12,6 +12,7 @@ EXPLANATION = ("dominance / ordering rules over the policy evaluator: policy-sup
                "options 53/54/51; the built-in base policy takes $self4, search list, captive portal, MTU and router from the "
                "right inputs")
 ASSUMPTIONS = ["not decided: options(reply) = Model(config, request) — equivalence with the manual over all policy trees is behavioural"]
+EXPLANATION += '; also: requested option codes are taken as sent (DhcpOption::from(u8) is the identity wrap); containment in an Ipv4Subnet (C08.R6) is evaluated here too'
 EXTRA_CONFIGS = ["dhcp"]
 
 
